@@ -201,7 +201,7 @@ def loadPushPromiseHead (h : Head) (src : Bytes) : Except FErr (Nat × Nat × Bo
     else
       let pad := if padded then src.getD 0 0 else 0
       let src := if padded then src.drop 1 else src
-      if src.length < 5 then .error .malformedMessage
+      if src.length < 4 then .error .malformedMessage
       else
         let promised := (parseStreamId src).1
         let src := src.drop 4
